@@ -671,6 +671,66 @@ def check_wide(case):
     return info
 
 
+# ------------------------------------------------------------------ nearly collinear channels
+
+
+def collinear_cells(tier):
+    """Two or three channels of which two are nearly collinear (a sensor and its re-calibrated copy: correlation 1 - 5e-6 .. 1 - 5e-9,
+    covariance condition numbers 4e5 .. 4e8 - far from the 1e-16 floor and from singularity in double precision). Seeded data."""
+    i = 0
+    for p_ in (2, 3):
+        for n in (40, 150):
+            for delta in (3e-3, 1e-3, 3e-4, 1e-4):
+                i += 1
+                if tier == "quick" and i % 2 == 0:
+                    continue
+                yield {"p": p_, "n": n, "delta": delta, "seed": 4700 + i}
+
+
+def _exact_log_det_cov(rows):
+    """log det of the (maximum-likelihood, ddof = 0) sample covariance in exact rational arithmetic."""
+    from fractions import Fraction
+
+    n, p = rows.shape
+    F = [[Fraction(float(v)) for v in r] for r in rows]
+    means = [sum(F[i][j] for i in range(n)) / n for j in range(p)]
+    C = [[sum((F[i][a] - means[a]) * (F[i][b] - means[b]) for i in range(n)) / n for b in range(p)] for a in range(p)]
+    if p == 2:
+        det = C[0][0] * C[1][1] - C[0][1] * C[1][0]
+    else:
+        det = (C[0][0] * (C[1][1] * C[2][2] - C[1][2] * C[2][1]) - C[0][1] * (C[1][0] * C[2][2] - C[1][2] * C[2][0])
+               + C[0][2] * (C[1][0] * C[2][1] - C[1][1] * C[2][0]))
+    import math
+
+    return math.log(det.numerator) - math.log(det.denominator), np.array([[float(v) for v in r] for r in C])
+
+
+def check_collinear(case):
+    from skchange.costs import GaussianCovCost
+
+    p_, n, delta = case["p"], case["n"], case["delta"]
+    rng = np.random.Generator(np.random.PCG64(case["seed"]))
+    z = rng.standard_normal(n)
+    X = np.column_stack([z, z + delta * rng.standard_normal(n)] + ([rng.standard_normal(n)] if p_ == 3 else []))
+    cuts = np.array([[0, n], [0, n // 2], [n // 3, n]])
+    with sut("GaussianCovCost on nearly collinear channels"):
+        out = np.asarray(GaussianCovCost().fit(X).evaluate(cuts), dtype=float)
+    worst = 0.0
+    for (s_, e_), got in zip(cuts, out[:, 0]):
+        m = int(e_ - s_)
+        logdet, C = _exact_log_det_cov(X[s_:e_])
+        want = m * p_ * np.log(2 * np.pi) + m * logdet + m * p_
+        cond = float(np.linalg.cond(C))
+        # rounding of a double-precision covariance + LU: relative error of the determinant ~ p eps cond; 100 x head-room
+        tol = 100 * m * p_ * ref.EPS * cond + 1e-10 * abs(want)
+        if not np.isfinite(got) or abs(got - want) > tol:
+            raise Violation("multivariate Gaussian cost of nearly collinear (but well-conditioned in double precision) channels differs from its "
+                            "definition (exact rational arithmetic)", cut=[int(s_), int(e_)], got=float(got), definition=float(want),
+                            tolerance=float(tol), condition_number=cond, delta=delta)
+        worst = max(worst, abs(got - want) / tol)
+    return {"nontrivial": True, "classes": [f"p={p_}", f"delta={delta:g}", f"error/tolerance<{10 ** np.ceil(np.log10(max(worst, 1e-6))):g}"]}
+
+
 FACETS = [
     Facet(
         name="values",
@@ -734,6 +794,13 @@ FACETS = [
         rule=("p in {20,50,100,120} (thorough: up to 160) columns, n ~ 4p, seeded Gaussian data in units 1e-3..1e3 (per-column spread 0.5..2, "
               "|log det| up to several hundreds), all three costs with optimal and scalar fixed parameters, whole-series and long sub-intervals; "
               "and the two univariate costs on 257 / 300 / 520 columns (thorough: up to 1030) x 24-60 rows; same definitional oracle; every cell non-trivial"),
+        shards_quick=8, shards_thorough=16, max_samples=1,
+    ),
+    Facet(
+        name="near_collinear_channels", kind="enumerate", enumerate=collinear_cells, check=check_collinear, exhaustive=True, time_limit=300,
+        rule=("GaussianCovCost (optimal parameters) on 2-3 channels of which two are nearly collinear (correlation 1 - 5e-6 .. 1 - 5e-9, condition "
+              "numbers 4e5 .. 4e8), n 40 / 150, whole series and sub-intervals: compared with the definition evaluated in exact rational arithmetic, "
+              "tolerance 100 n p eps cond; every cell non-trivial"),
         shards_quick=8, shards_thorough=16, max_samples=1,
     ),
 ]
